@@ -6,14 +6,16 @@ COMMON_NOTE = ("trusted: Coq 8.16.1 kernel; hand-written Gallina model tied to /
                "ExtrOcamlBasic + ExtrOcamlZBigInt + N.lxor/land/lor directives, Rust harness in the production cfg); "
                "no axioms (Print Assumptions closed under every theorem)")
 P = {
- "C01": ("theorem honest_login_agrees (generic in the suite, under HashLaws proved for SHA-2 and GroupLaws assumed for the concrete curves): "
+ "C01": ("theorem honest_login_agrees (generic in the suite; restated at each of the 20 concrete suites, where HashLaws, CodecLaws, SizeLaws and the "
+         "encoding half of GroupLaws are proved and the only hypothesis left is CurveLaws - six facts of elliptic-curve arithmetic): "
          "after an honest registration the client accepts, the server accepts its finalization, keys agree, export key and server key as at "
          "registration; differential run of honest flows on boundary-length inputs, all suites, production build",
-         "concrete group laws are hypotheses (proved for the toy suite); non-degeneracy hypotheses are explicit in the statement"),
+         "CurveLaws (closure, commutativity and invertibility of the scalar action, decompression inverts compression, derived public keys valid, DH symmetric) "
+         "is a hypothesis for the concrete curves (all laws proved for the toy suite); non-degeneracy hypotheses are explicit in the statement"),
  "C02": ("theorem wrong_password_never_accepted: after an honest registration with pw, a login with any pw' <> pw against the honest server is "
          "never accepted by the client unless an explicit bad event is exhibited (collision of HMAC / hash / HKDF-Expand / key derivation / DH in the "
          "private key, each with its witness); injective password encoding, refusal of over-long passwords; near-miss battery with the InvalidLogin oracle",
-         "concrete group laws are hypotheses; the error kind InvalidLogin is observed by the battery"),
+         "CurveLaws is a hypothesis for the concrete curves (restated at each of the 20 suites under CurveLaws alone); the error kind InvalidLogin is observed by the battery"),
  "C03": ("theorem: exactly one byte string (the HMAC of the stored transcript under the stored key) completes a pending server login, everything else is "
          "InvalidLogin - unconditional, also at the byte-level API; exhaustive bit flips, structured multi-byte alterations and random strings on the crate",
          "none beyond the common trusted base"),
@@ -23,8 +25,9 @@ P = {
  "C05": ("theorems: injectivity of the transcript / AAD / Finalize input / OPRF-key info encodings for all lengths < 2^16, refusal above, default-identity "
          "spelling; triples battery incl. boundary-shifted splits; cross-check of every client finish",
          "the end-to-end binding theorem is given for server key + sealed identities (C06_envelope_binds) up to an exhibited HMAC collision"),
- "C06": ("theorems: reported key = setup key; envelope binds server key and identities, substituted static key => InvalidLogin or an exhibited HMAC collision",
-         "concrete group laws are hypotheses"),
+ "C06": ("theorems: reported key = setup key; envelope binds server key and identities, substituted static key => InvalidLogin or an exhibited HMAC collision "
+         "(restated at each of the 20 suites under CurveLaws alone); battery incl. stolen files whose binding tag is altered in one byte or in all bytes but one",
+         "CurveLaws is a hypothesis for the concrete curves"),
  "C07": ("theorems: an invariant over ALL histories of a world in which a network adversary chooses every delivered message and the order of all steps "
          "(induction over the operation list, shared tape): in every reachable world a completed client session that accepted a response carrying an honest "
          "server session's MAC has that session's transcript (the session consumed this client's request; context agrees; keys agree), a completed server "
@@ -57,8 +60,9 @@ P = {
          "blind layout is per group (checked by correspondence)"),
  "C18": ("theorems: never-failing external key = private key interface record, operations equal, only the two callbacks used, failures returned as Custom",
          "call counts are taken from the crate's own trace"),
- "C19": ("PARTIAL: scalar codecs round-trip both ways, clamping lemmas, derivation validity (theorems); DH symmetry battery",
-         "that the concrete formulas form a group is not proved (GroupLaws hypothesis)"),
+ "C19": ("PARTIAL: scalar and key codecs round-trip both ways, clamping lemmas, every sampled / hashed / derived scalar and key is valid for each of the 20 suites "
+         "(EncodingLaws), shared secrets have the public-key length (theorems); DH symmetry, boundary keys, RFC 7748 vectors and arbitrary Curve25519 peer shares (battery)",
+         "that the concrete formulas form a group (CurveLaws: six facts of elliptic-curve arithmetic) is validated against the crate, not proved"),
 }
 checks = []
 for pid in sorted(P):
@@ -91,7 +95,7 @@ m = {
  ],
  "checks": checks,
  "not_applicable": [],
- "notes": "Three genuine defects were repaired in /repo by 'fix:' commits (known_findings.json). seeded/ holds 38 confirmed property-breaking changes used to test the checks (DESIGN.md appendix E)."
+ "notes": "Three genuine defects were repaired in /repo by 'fix:' commits (known_findings.json). seeded/ holds 76 confirmed property-breaking changes (two rounds of independent agents working from the property text alone) used to test the checks, and one behaviour-preserving rewrite (DESIGN.md appendix E). The code under test is built twice (overflow checks + debug assertions on / plain release) and both builds must behave as the model."
 }
 json.dump(m, open(os.path.join(V, "MANIFEST.json"), "w"), indent=1)
 print("wrote MANIFEST.json with", len(checks), "checks")
